@@ -127,6 +127,10 @@ type FnCtx struct {
 	hasRecover bool
 	modelVars []string
 	axiomNames []string
+	cells     map[*types.Var]string   // captured-and-assigned locals -> heap name (closures.go)
+	ownCells  map[string]bool        // cell heaps of locals declared by the function being verified
+	closureOf map[*types.Var]string   // local closure variable -> contract key
+	closureRO map[string][]*types.Var // contract key -> read-only captured variables (leading parameters)
 }
 
 type unsupported struct{ msg string }
@@ -165,6 +169,10 @@ func (fx *FnCtx) heapInitConst(name, sort string) string {
 // heapWF: every slice stored in the heap is well-formed (0 <= len <= cap, 0 <= off): a Go invariant.
 func heapWF(c, sort string) string {
 	const pfx = "(Array Int Slice_"
+	if strings.HasPrefix(sort, "Slice_") {
+		// a cell holding a slice (captured local variable)
+		return fmt.Sprintf("(and (<= 0 (len_%s %s)) (<= (len_%s %s) (cap_%s %s)) (<= 0 (off_%s %s)))", sort, c, sort, c, sort, c, sort, c)
+	}
 	if !strings.HasPrefix(sort, pfx) {
 		return ""
 	}
